@@ -14,7 +14,7 @@ CHECKS = {
    design_ref="§6 C04", technique="Lean 4 proof (frame/invariant over operations) + exact-rational white-box correspondence over update histories",
    note="theorems cover the Ruiz preconditioners; 'same trajectory as a fresh solver' (reuse=false) is carried by the exact correspondence, not by a theorem; known finding F16b (h made finite again without G) is a defect of the effective-data semantics itself and is reported as KNOWN-FINDING"),
  "C05": dict(category="proof",
-   text="Theorems rejected_is_identity (for every state and every call the model reports as rejected - any argument with a wrong size, sparse nnz/pattern mismatch, call before setup, rejected setup - the state is unchanged) and rejection_transparent (for every call history with rejected calls at any positions, the final state and the outcomes of all other calls are those of the history in which the rejected calls were never made). Tie: the model's rejection classification and messages are compared with the real code on every kind of invalid call injected at every position of valid histories; the implementation's white-box state is compared across the rejected call and all later outputs with a twin history, exactly.",
+   text="Theorems validateSetup_none_iff / setup_done_iff (classification is complete: setup succeeds exactly on dimension-consistent argument lists with n > 0 - every wrong size of every argument, a missing b with p > 0, a missing h with m > 0 is rejected and nothing else is), toVec_faithful (on accepted sizes the typed view of a vector argument is the caller's array, no padding or truncation), rejected_is_identity (for every state and every call the model reports as rejected - any argument with a wrong size, sparse nnz/pattern mismatch, call before setup, rejected setup - the state is unchanged) and rejection_transparent (for every call history with rejected calls at any positions, the final state and the outcomes of all other calls are those of the history in which the rejected calls were never made). Tie: the model's rejection classification and messages are compared with the real code on every kind of invalid call injected at every position of valid histories; the implementation's white-box state is compared across the rejected call and all later outputs with a twin history, exactly.",
    design_ref="§6 C05", technique="Lean 4 proof (state-machine: rejected call = identity) + exact differential correspondence with injected invalid calls and twin histories",
    note="memory-safety clause (no out-of-bounds access) is outside the model; it is exercised by the same histories but not proved"),
  "C07": dict(category="proof",
